@@ -367,7 +367,14 @@ pub fn only_sequences_advanced(before: &Obs, after: &Obs) -> bool {
         }
         let sb: std::collections::BTreeSet<&(i64, String)> = hb.iter().collect();
         let sa: std::collections::BTreeSet<&(i64, String)> = ha.iter().collect();
-        if sa != sb {
+        // every entry of the old list is still there; what is new is a re-application: the same (id, content) again, or
+        // - for a publish that was a no-op when first applied (same content as the value then current) and is replayed over
+        // the snapshot's older value - that publish's own id with a content the key's history already contains
+        if !sb.iter().all(|x| sa.contains(x)) {
+            return false;
+        }
+        let old_contents: std::collections::BTreeSet<&String> = hb.iter().map(|x| &x.1).collect();
+        if !sa.iter().all(|x| sb.contains(x) || old_contents.contains(&x.1)) {
             return false;
         }
         let mut it = ha.iter();
@@ -1766,7 +1773,9 @@ pub async fn exec_c19(script: Value) -> ExecResult {
                 }
                 WStep::Advance { ms } => advance(*ms).await,
                 other => {
-                    if let Some(target) = node(step_node(other)) {
+                    // an import runs on the leader (TransferImportManager writes with raft.client_write, which a follower refuses)
+                    let target_id = if matches!(other, WStep::Import { .. }) && nodes > 1 { majority_leader().unwrap_or(step_node(other)) } else { step_node(other) };
+                    if let Some(target) = node(target_id) {
                         let _ = do_step(&target, other, &mut m, 20_000).await;
                     }
                 }
@@ -1884,8 +1893,11 @@ impl Check for C19 {
                 WStep::SeqNext { node, key: rng.below(3) as u8, n: rng.range(1, 6) as u8 }
             } else if r < 60 {
                 WStep::SeqRange { node, key: rng.below(3) as u8, len: *rng.pick(&[1u8, 2, 50, 99, 100, 101, 120]) }
-            } else if r < 82 {
+            } else if r < 79 {
                 WStep::CfgSet { node, t: rng.below(2) as u8, g: 0, d: rng.below(3) as u8, size: 10, same: rng.chance(0.1), typ: 0, desc: 0 }
+            } else if r < 82 {
+                // an import record (history ids drawn from the config actor, full value written through raft)
+                WStep::Import { node, t: rng.below(2) as u8, g: 0, d: rng.below(3) as u8, inter: rng.chance(0.6) }
             } else if r < 88 {
                 WStep::KillRestart { node }
             } else if r < 94 {
